@@ -520,6 +520,7 @@ src/git/repo_storage.rs::write_all_checkpoints#0 | write | &checkpoints_file | r
 src/git/repo_storage.rs::write_all_checkpoints#1 | write | &checkpoints_file | repoAiDir
 src/git/repo_storage.rs::write_initial_attributions#0 | remove_file | &self.initial_file | repoAiDir
 src/git/repo_storage.rs::write_initial_attributions#1 | write | &self.initial_file | repoAiDir
+src/utils.rs::acquire#0 | OpenOptions | path | repoAiDir
 src/git/rewrite_log.rs::append_event_to_file#0 | write | file_path | repoAiDir
 src/git/rewrite_log.rs::append_event_to_file#1 | write | file_path | repoAiDir
 src/git/rewrite_log.rs::append_event_to_file#2 | write | file_path | repoAiDir
@@ -554,6 +555,16 @@ ROOT_FACTS = [
     ("src/observability/mod.rs", r'let logs_dir = home\.join\("\.git-ai"\)\.join\("internal"\)\.join\("logs"\);'),
     ("src/observability/mod.rs", r'let internal_dir = home\.join\("\.git-ai"\)\.join\("internal"\);'),
     ("src/observability/mod.rs", r'let marker = internal_dir\.join\("last_flush_trigger_ts"\);'),
+]
+# (regex over the cleaned text of all of src, exact number of matches): the lock files of LockFile::acquire are
+# siblings `<file>.lock` of files under the ai dir, and nobody else creates lock files through it
+COUNT_FACTS = [
+    (r"\bLockFile::acquire\(", 1),
+    (r"LockFile::acquire\(&file\.with_file_name\(lock_name\), STORAGE_LOCK_TIMEOUT\)", 1),
+    (r"\block_for_update\(", 4),
+    (r'lock_for_update\(&self\.dir\.join\("checkpoints\.jsonl"\)\)', 1),
+    (r'lock_for_update\(&repo\.common_dir\(\)\.join\("ai"\)\.join\("notes"\)\)', 1),
+    (r"let _lock = crate::git::repo_storage::lock_for_update\(file_path\);", 1),
 ]
 ROOTS = ["repoAiDir", "homeGitAi", "gitConfig", "hooksDir", "other"]
 
@@ -641,7 +652,7 @@ def extract():
                     script_refs.append(f"<{sm.group(1)}>")
             if re.search(r'format!\(\s*"(?:commit|reset)\s', raw_body):
                 script_refs.append("<dynamic>")
-        calls.append({"key": c["key"], "file": c["file"], "fn": c["fn"], "k": c["k"], "line": c["line"], "stdin": c["stdin"],
+        calls.append({"key": c["key"], "file": c["file"], "fn": c["fn"], "k": c["k"], "line": c["line"], "stdin": c["stdin"], "profile": c["profile"],
                       "tokens": [{kk: v for kk, v in t.items() if kk != "src"} for t in toks],
                       "raw_tokens": PT.show_tokens(c["tokens"]), "script_refs": script_refs,
                       "guarded": (k not in UG) and not in_spawn, "phases": phases(k, in_spawn)})
@@ -651,6 +662,11 @@ def extract():
     for rel, rx in ROOT_FACTS:
         if not re.search(rx, ix.texts[rel][0]):
             problems.append(f"{rel}: path-root fact no longer holds: /{rx}/")
+    alltext = "\n".join(t for t, _ in ix.texts.values())
+    for rx, n in COUNT_FACTS:
+        got = len(re.findall(rx, alltext))
+        if got != n:
+            problems.append(f"path-root fact: /{rx}/ occurs {got} times in src, reviewed with {n}")
     writes, seen_keys, wcount = [], set(), {}
     for k in sorted(ALL, key=lambda k: (ix.fns[k]["file"], ix.fns[k]["start"])):
         f = ix.fns[k]
